@@ -486,7 +486,9 @@ func (e *Executor) LoadDependencyOutputs(
 		)
 		loadErr := e.registry.LoadOutputs(ctx, localDep, targetResult, progress)
 
-		if loadErr != nil || localDep.SkipsCache() {
+		// A no-cache dependency has nothing to restore from the cache, but when it was already
+		// executed in this invocation its outputs are in place and it must not run again
+		if loadErr != nil || (localDep.SkipsCache() && !localDep.OutputsLoaded) {
 			logger.Debugf(
 				"%s: failed to load output for dependency %s (re-rerunning): err=%v no-cache=%t",
 				target.Label,
